@@ -502,10 +502,10 @@ def part_bits(part, shard, nshards):
 
 def parts(tier, seed):
     if tier == "quick":
-        ps = [(f"coll-{i}", part_collections, {"n": 400}) for i in range(4)]
-        ps += [(f"stats-{i}", part_stats, {"n": 500}) for i in range(3)]
+        ps = [(f"coll-{i}", part_collections, {"n": 1000}) for i in range(4)]
+        ps += [(f"stats-{i}", part_stats, {"n": 1200}) for i in range(3)]
         ps += [(f"perms-{i}", part_all_perms, {"n": 25}) for i in range(2)]
-        ps += [(f"ints-{i}", part_ints, {"n": 600}) for i in range(3)]
+        ps += [(f"ints-{i}", part_ints, {"n": 1500}) for i in range(3)]
         ps += [(f"bits-{i}", part_bits, {"shard": i, "nshards": 4})
                for i in range(4)]
     else:
